@@ -1181,7 +1181,7 @@ class C(RC):
 
     def _kill(self):
         """Kill implicit sources due to initial conditions."""
-        return self.netmake(args=self.args[0])
+        return self._netmake(args=self.args[0])
 
     def _initialize(self, ic):
         """Change initial condition to ic."""
@@ -1742,7 +1742,7 @@ class L(RLC):
 
     def _kill(self):
         """Kill implicit sources due to initial conditions."""
-        return self.netmake(args=self.args[0])
+        return self._netmake(args=self.args[0])
 
     def _initialize(self, ic):
         """Change initial condition to ic."""
